@@ -8,7 +8,8 @@ TRUSTED = {
           'and by the exhaustive scalar enumeration of BEC contract C10.display_width.scalar',
     'A3': 'A3 allocation bound: a str/String has at most isize::MAX bytes, a Vec at most isize::MAX elements',
     'A4': 'A4 documented std behaviour of the transparent wrappers (vx_* functions whose body is the std call: slicing, find, trim_end_matches, split, '
-          'repeat, Cow operations, mem::take, ...), vstd\'s own assume_specifications and vstd::utf8',
+          'repeat, Cow operations, mem::take, ...), vstd\'s own assume_specifications and vstd::utf8; in U9 also one axiom about a std function that is otherwise abstract there: '
+          'str::lines(s) is lines_c(s) (the \'\\n\'-separated pieces, a terminated piece without one \'\\r\' before its \'\\n\', no final empty piece) — checked on the real str::lines within scope by the bounded contract A4.std_models',
     'A5': 'A5 Fragment accessors are pure (each accessor returns its ghost twin)',
     'A6': 'A6 (discharged as far as shape and safety go) smawk::online_column_minima(init, n, f) calls f(m, i, j) only with i < j < n, i < m.len() and a well-shaped table m, never panics, '
           'terminates, and returns a back-pointer table of length n with m[0].0 == 0 and m[k].0 < k: PROVED in unit U24 on the source of the smawk version Cargo.lock pins (read from the '
